@@ -197,7 +197,7 @@ class FloatInject(SpaceTransfer):
         return type(G)(G)
 
 
-def run_symbolic(c, cfg, xs=None, t0=0.0, nsteps=None, ctl=None):
+def run_symbolic(c, cfg, xs=None, t0=0.0, nsteps=None, ctl=None, tend_shift=None):
     LOG.clear()
     if ctl is None:
         ctl, A = build(cfg)
@@ -213,7 +213,7 @@ def run_symbolic(c, cfg, xs=None, t0=0.0, nsteps=None, ctl=None):
                 c.add(z3.And(x >= rv(cfg['xrange'][0]), x <= rv(cfg['xrange'][1])))
     u0 = sp.mkmesh(P, [SymReal(x) for x in xs])
     nsteps = nsteps if nsteps is not None else cfg.get('nsteps', cfg['NP'] * cfg.get('blocks', 1))
-    uend, stats = ctl.run(u0, t0, t0 + cfg['dt'] * nsteps)
+    uend, stats = ctl.run(u0, t0, t0 + cfg['dt'] * nsteps if tend_shift is None else SymReal(rv(t0 + cfg['dt'] * nsteps) + tend_shift))
     return ctl, A, uend, stats, xs
 
 
